@@ -158,9 +158,12 @@ func c19CleanConverts(c c19Case) bool {
 func runC19(c c19Case) string {
 	w := newWorkspace()
 	defer w.cleanup()
+	// half of the XLSX cases store plain numbers as number-typed cells (what a spreadsheet program does): both
+	// paths must read the same text from them
+	numeric := len(c.sheet)%2 == 0
 	write := func(sub string, b bookSpec) {
 		if c.container == "xlsx" {
-			w.writeXLSXBook(sub, b, false)
+			w.writeXLSXBook(sub, b, numeric)
 		} else {
 			w.writeCSVBook(sub, b)
 		}
